@@ -16,11 +16,13 @@ theorem natCast_beq (a b : Nat) : ((a : Int) == (b : Int)) = (a == b) := by
 
 theorem chunks_si_eq (n k idx : Int) (hk : 0 ≤ k) : chunks_si n k idx = chunkStartI n k idx := by
   simp only [chunks_si, chunkStartI, Int.fdiv_eq_ediv_of_nonneg _ hk, Int.fmod_eq_emod_of_nonneg _ hk,
-    decide_eq_true_eq]
+    decide_eq_true_eq] <;>
+    (generalize n / k = d; generalize n % k = r; grind)
 
 theorem chunks_stop_eq (n k idx : Int) (hk : 0 ≤ k) : chunks_stop n k idx = chunkStopI n k idx := by
   simp only [chunks_stop, chunkStopI, chunkStartI, Int.fdiv_eq_ediv_of_nonneg _ hk,
-    Int.fmod_eq_emod_of_nonneg _ hk, decide_eq_true_eq]
+    Int.fmod_eq_emod_of_nonneg _ hk, decide_eq_true_eq] <;>
+    (generalize n / k = d; generalize n % k = r; grind)
 
 /-- the `Int` formulas agree with the `Nat` model the theorems are about -/
 theorem chunkStartI_cast (n k idx : Nat) : chunkStartI n k idx = (chunkStart n k idx : Nat) := by
